@@ -15,7 +15,7 @@ SPEC = {
              'concatenation, in pattern order, of the single results after exclusion. The same is checked through Path.glob. '
              'A case is one (tree, list, flag set); it is non-trivial when at least two single patterns return a common path or an '
              'exclusion removes a path.'),
-    'bounds': {'quick': {'trees_per_shard': 40, 'lists_per_tree': 14}, 'thorough': {'trees': 'until the time budget', 'lists_per_tree': 30}},
+    'bounds': {'quick': {'trees_per_shard': 150, 'lists_per_tree': 14}, 'thorough': {'trees': 'until the time budget', 'lists_per_tree': 30}},
     'floor': {'quick': 5000, 'thorough': 60000},
     'required_counters': ['union_checks', 'uniqueness_checks', 'nounique_concat_checks', 'exclusion_removed', 'overlapping_lists',
                           'pathlib_checks', 'icase_lists'],
@@ -180,7 +180,7 @@ def check_list(ctx, tr, rng, k, j):
 def run(ctx):
     quick = ctx.quick
     k = 0
-    limit = 40 if quick else 10 ** 9
+    limit = 150 if quick else 10 ** 9
     while k < limit and not ctx.out_of_time():
         k += 1
         rng = ctx.rng_for('t', ctx.shard, k)
